@@ -64,6 +64,7 @@ type Proc struct {
 	Shell   string   `json:"shell,omitempty"`
 	WriteAPI bool    `json:"write_api,omitempty"` // gofunc: use the documented OutIP(p).Write()
 	DepIn   bool     `json:"dep_in,omitempty"`    // globber: NewFileGlobberDependent
+	DelayMS int      `json:"delay_ms,omitempty"`  // recorder: pause before every receive (a slow consumer)
 }
 
 // Out configures the path of an out-port.
